@@ -110,18 +110,7 @@ CaseResult run_compressed(const RunCtx &ctx, TapeReader &t, unsigned size_hint) 
     o.xkeys = ctx.x("xkeys");
     o.xthreads = ctx.x("xthreads");
     std::vector<K> keys = gen_keys<K>(t, o, meta);
-    // KNOWN FINDING KF-2 (excluded by construction, counted): every level adds a closing point one past the last key of the
-    // level below (last+1, last+2, ...). If the last key is within `height` of the numeric maximum one of these points is the
-    // sentinel value: the segment it opens is indexed like a normal one, the next closing point wraps around to 0 and the
-    // constructor throws logic_error (or queries of the last gap are routed to the sentinel-keyed segment).
-    // Keys above max-16 are moved down to max-16.
-    bool excluded = false;
-    if (!ctx.x("xkeys")) {
-        const K cap = std::numeric_limits<K>::max() - 16;
-        for (auto &k: keys)
-            if (k > cap) k = cap, excluded = true;
-        if (excluded) meta.top_reached = false;
-    }
+    const bool excluded = false; // KF-2 (last key near the numeric maximum) was repaired; nothing is excluded any more
     std::ostringstream head;
     head << "CompressedPGMIndex<" << type_name<K>() << "," << Eps << "," << ER << "," << type_name<F>() << ">";
     fill_desc(ctx, res, head.str(), keys, meta);
